@@ -20,8 +20,12 @@
 (*  mne     : epochs -> temporal dataset                        (C20 d)    *)
 (*  dm      : design-matrix structure                           (C20 e)    *)
 (*  spm     : per-run projection  Y - X0 (X0' Y), exact         (C20 f)    *)
+(*  layout  : histories of look-ups on ONE layout object        (C20 b)    *)
+(*  hrf     : design matrix for events on the volume grid, EXACT (C20 e)   *)
+(*  dataset : a derivative data set on disk, find_fmriprep_runs (C20 b)    *)
+(*  df      : RDMs -> long table rows (io.pandas)               (export)   *)
 (***************************************************************************)
-EXTENDS Integers, Sequences, FiniteSets, TLC, SequencesExt, Functions, Json
+EXTENDS Integers, Sequences, FiniteSets, TLC, SequencesExt, Functions, Json, ImportersHrf
 
 CONSTANTS Sections,   \* subset of {"bids", "layout", "meadows", "mne", "dm", "spm"}
           BidsVals,   \* record: entity name -> set of value words (ext: set of word sequences)
@@ -35,7 +39,10 @@ CONSTANTS Sections,   \* subset of {"bids", "layout", "meadows", "mne", "dm", "s
           SpmPats,    \* SPM: data patterns
           SpmEmitMod, \* SPM: emit one in SpmEmitMod run structures
           LayoutDepth,   \* layout: length of the enumerated look-up histories on ONE layout object
-          LayoutEmitMod  \* layout: emit one in LayoutEmitMod histories
+          LayoutEmitMod, \* layout: emit one in LayoutEmitMod histories
+          MaxCond,       \* dm / hrf: max number of trial types
+          MneCodes,      \* mne: event codes
+          Ds             \* dataset: record of the words the fmriprep helpers hard-code (see MC_Importers)
 
 VARIABLES sec, stage, inp, out
 vars == <<sec, stage, inp, out>>
@@ -47,7 +54,7 @@ DASH  == -3
 DOT   == -4
 
 WDERIV == 1   WSUB == 2   WSES == 3   WTASK == 4   WRUN == 5   WSPACE == 6   WDESC == 7
-WJSON == 8    WTSV == 9   WEVENTS == 10   WMAT == 11   WMEADOWS == 12   WV == 13
+WJSON == 8    WTSV == 9   WEVENTS == 10   WMAT == 11   WMEADOWS == 12   WV == 13   WEPO == 14   WFIF == 15
 
 RECURSIVE Join(_, _)
 Join(ps, sep) == IF ps = <<>> THEN <<>>
@@ -214,7 +221,12 @@ Family ==                  \* the base file and every file that differs from it 
     [Base0 EXCEPT !.derivative = LastOf(BidsVals.derivative)],
     [Base0 EXCEPT !.modality = LastOf(BidsVals.modality)],
     [Base0 EXCEPT !.ses = 0], [Base0 EXCEPT !.task = 0], [Base0 EXCEPT !.run = 0],
-    [Base0 EXCEPT !.space = 0], [Base0 EXCEPT !.desc = 0], [Base0 EXCEPT !.derivative = 0]>>
+    [Base0 EXCEPT !.space = 0], [Base0 EXCEPT !.desc = 0], [Base0 EXCEPT !.derivative = 0],
+    \* ... and four files that differ in two entities at once
+    [Base0 EXCEPT !.space = LastOf(BidsVals.space), !.desc = LastOf(BidsVals.desc)],
+    [Base0 EXCEPT !.run = LastOf(BidsVals.run), !.space = 0],
+    [Base0 EXCEPT !.ses = 0, !.run = 0],
+    [Base0 EXCEPT !.derivative = LastOf(BidsVals.derivative), !.space = LastOf(BidsVals.space)]>>
 LayoutArg == CHOOSE a \in LookArgs : \A b \in LookArgs : a[1] <= b[1] /\ (a[1] = b[1] => a[2] <= b[2])
 \* the answer of a (memoryless) layout
 Answer(files, f, kind, d, s) == LookupEnt(kind, files[f], d, s)
@@ -356,7 +368,15 @@ MneTok(e, c, t) == 100 * e + 10 * c + t
 MneExpect(i) ==
   [meas |-> [e \in 1..i.ne |-> [c \in 1..i.nc |-> [t \in 1..i.nt |-> MneTok(e, c, t)]]],
    event |-> i.codes, name |-> [c \in 1..i.nc |-> c],
-   time |-> [t \in 1..i.nt |-> <<t - 1 - i.first, i.sfreq>>]]       \* rational seconds
+   time |-> [t \in 1..i.nt |-> <<t - 1 - i.first, i.sfreq>>],       \* rational seconds
+   fname |-> IF i.name = NoEnt THEN <<>> ELSE FName(i.name),
+   descs |-> NameDescs(i.name)]
+
+\* names of epochs files: BIDS-style key-value segments, suffix "epo", extension "fif"; read_epochs adds the
+\* file name and the sub / run / task entities of the name to the dataset descriptors
+MneNames == {[NoEnt EXCEPT !.sub = a, !.ses = b, !.task = c, !.run = d, !.suffix = WEPO, !.ext = <<WFIF>>] :
+               a \in {0, FirstOf(BidsVals.sub)}, b \in {0, FirstOf(BidsVals.ses)},
+               c \in {0, LastOf(BidsVals.task)}, d \in {0, FirstOf(BidsVals.run)}}
 
 (* ========================== (e) design matrix ============================ *)
 \* conditions in order of first appearance in the event table
@@ -412,6 +432,92 @@ SpmY(T, P, pat) == [t \in 1..T |-> [p \in 1..P |->
                         [] OTHER -> IF (t + p) % 3 = 0 THEN t ELSE 0 - p]]
 SumN(runs) == FoldFunction(LAMBDA x, acc : x + acc, 0, [k \in 1..Len(runs) |-> runs[k].n])
 
+(* ================= (e') design matrix on the volume grid, exact ========== *)
+(* make_design_matrix convolves the HRF (100 ms grid) with a box of the median event duration, samples *)
+(* the result every TR, and adds one copy per event, shifted to the event's onset.  When TR is a      *)
+(* multiple of 100 ms and the onsets are multiples of TR no interpolation is involved, so the matrix  *)
+(* is an exact function of the table:                                                                 *)
+(*    K[k]      = sum_{i < B} Hrf[k s - i]            s = TR / 100 ms,  B = duration / 100 ms          *)
+(*    raw[j][c] = sum over events (c, m) of K[j - m]   (0 <= j - m < L)                                *)
+(*    dm[j][c]  = (n raw[j][c] - sum_j raw[j][c]) / (n (max_j raw - min_j raw))                        *)
+(* (the division by the kernel's maximum cancels in the range normalisation).                         *)
+HrfAt(x) == IF x >= 0 /\ x < Len(HrfTable) THEN HrfTable[x + 1] ELSE 0
+SumTo(f, n) == FoldFunction(LAMBDA x, acc : x + acc, 0, [k \in 1..n |-> f[k]])
+KernelLen(s, B) == LET tmax == (Len(HrfTable) + B - 2) \div 10 IN (10 * tmax + s - 1) \div s
+Kernel(s, B) == [k \in 1..KernelLen(s, B) |-> SumTo([i \in 1..B |-> HrfAt((k - 1) * s - (i - 1))], B)] \o <<>>
+\* one event (condition c, onset at volume m, 0-based) : its column
+Single(K, nv, m) == [j \in 1..nv |-> IF j - 1 - m >= 0 /\ j - 1 - m < Len(K) THEN K[j - m] ELSE 0]
+CondsOf(ev) == FirstSeen([k \in 1..Len(ev) |-> ev[k][1]], {})
+HrfRaw(i) ==
+  LET K == Kernel(i.s, i.B)  cc == CondsOf(i.ev) IN
+  [c \in 1..Len(cc) |->
+     LET mine == SelectSeq(i.ev, LAMBDA e : e[1] = cc[c])
+         cols == [k \in 1..Len(mine) |-> Single(K, i.nvols, mine[k][2]) \o <<>>] IN
+     [j \in 1..i.nvols |-> SumTo([k \in 1..Len(mine) |-> cols[k][j]], Len(mine))] \o <<>>] \o <<>>
+MaxOf(v) == CHOOSE x \in Range(v) : \A y \in Range(v) : x >= y
+MinOfSeq(v) == CHOOSE x \in Range(v) : \A y \in Range(v) : x <= y
+HrfExpect(i) ==
+  LET raw == HrfRaw(i)  n == i.nvols IN
+  [colcond |-> CondsOf(i.ev), raw |-> raw,
+   num |-> [c \in 1..Len(raw) |-> [j \in 1..n |-> n * raw[c][j] - SumTo(raw[c], n)]],
+   den |-> [c \in 1..Len(raw) |-> n * (MaxOf(raw[c]) - MinOfSeq(raw[c]))],
+   dof |-> n - Len(raw)]
+\* onset patterns (volume indices): spread out / all events at once / consecutive with the last one on the
+\* last but one volume / spread, plus a further event of the first condition after the end of the scan
+Onsets(p, len, nv) == [k \in 1..len |->
+   CASE p = 1 -> 2 * k - 1
+     [] p = 2 -> 2
+     [] p = 3 -> IF k = len THEN nv - 2 ELSE k - 1
+     [] OTHER -> 2 * k - 1]
+HrfEvents(cs, p, nv) == [k \in 1..Len(cs) |-> <<cs[k], Onsets(p, Len(cs), nv)[k]>>]
+                        \o (IF p = 4 THEN << <<cs[1], nv + 3>> >> ELSE <<>>)
+
+(* ===================== (b'') a derivative data set on disk =============== *)
+(* The files of a small study: per subject / session / task / run a raw bold file with events and       *)
+(* sidecar, its fmriprep derivatives in two spaces (bold + sidecar, brain mask, parcellation), one      *)
+(* confounds table, and a second pipeline with one bold file.  find_fmriprep_runs /                     *)
+(* find_mri_derivative_files must return exactly the files of the pipeline with the asked desc (and     *)
+(* task); every run found must find ITS events, sidecar, confounds, mask and parcellation files.        *)
+DsFile(sub, ses, task, run, space, desc, suffix, ext, der) ==
+  [sub |-> sub, ses |-> ses, task |-> task, run |-> run, space |-> space, desc |-> desc, suffix |-> suffix,
+   ext |-> ext, derivative |-> der, modality |-> Ds.func]
+NiiGz == <<Ds.nii, Ds.gz>>
+DsFiles(i) ==
+  UNION {
+    {DsFile(su, se, ta, ru, 0, 0, Ds.bold, NiiGz, 0), DsFile(su, se, ta, ru, 0, 0, Ds.bold, <<WJSON>>, 0),
+     DsFile(su, se, ta, ru, 0, 0, WEVENTS, <<WTSV>>, 0),
+     DsFile(su, se, ta, ru, 0, Ds.confounds, Ds.timeseries, <<WTSV>>, Ds.p1),
+     DsFile(su, se, ta, ru, Ds.sp1, Ds.preproc, Ds.bold, NiiGz, Ds.p2)}
+    \cup UNION {{DsFile(su, se, ta, ru, sp, Ds.preproc, Ds.bold, NiiGz, Ds.p1),
+                 DsFile(su, se, ta, ru, sp, Ds.preproc, Ds.bold, <<WJSON>>, Ds.p1),
+                 DsFile(su, se, ta, ru, sp, Ds.brain, Ds.mask, NiiGz, Ds.p1),
+                 DsFile(su, se, ta, ru, sp, Ds.aparcaseg, Ds.dseg, NiiGz, Ds.p1)} : sp \in {Ds.sp1, Ds.sp2}}
+    : su \in Range(i.subs), se \in Range(i.sess), ta \in Range(i.tasks), ru \in Range(i.runs)}
+\* the query: pipeline, desc (and suffix, 0 = any: the helper asks for "preproc_bold"), tasks (<<>> = all)
+DsMatch(e, q) == /\ e.derivative = q.der /\ e.desc = q.desc /\ (q.suffix = 0 \/ e.suffix = q.suffix)
+                 /\ e.ext # <<WJSON>> /\ (q.tasks = <<>> \/ e.task \in Range(q.tasks))
+DsFound(i) == {e \in DsFiles(i) : DsMatch(e, i.q)}
+\* descriptors of a run: the sub, ses, run and task entities of the file that are present
+RunDescs(e) == [sub |-> e.sub, ses |-> e.ses, run |-> e.run, task |-> e.task]
+DsRun(e) == [ent |-> e, path |-> Format(e), descs |-> RunDescs(e),
+             events |-> Format(LookupEnt("events", e, 0, 0)), meta |-> Format(LookupEnt("meta", e, 0, 0)),
+             confounds |-> Format(LookupEnt("tsib", e, Ds.confounds, Ds.timeseries)),
+             mask |-> Format(LookupEnt("msib", e, Ds.brain, Ds.mask)),
+             parc |-> Format(LookupEnt("msib", e, Ds.aparcaseg, Ds.dseg)),
+             key |-> Format(LookupEnt("key", LookupEnt("msib", e, Ds.aparcaseg, Ds.dseg), 0, 0))]
+DsExpect(i) == [files |-> {Format(e) : e \in DsFiles(i)}, found |-> {DsRun(e) : e \in DsFound(i)}]
+DsQueries == {[der |-> d, desc |-> x[1], suffix |-> x[2], tasks |-> t] :
+                d \in {Ds.p1, Ds.p2}, x \in {<<Ds.preproc, Ds.bold>>, <<Ds.preproc, 0>>, <<Ds.brain, Ds.mask>>},
+                t \in {<<>>, <<Ds.t1>>, <<Ds.t2, Ds.t1>>}}
+
+(* ========================= (g) RDMs -> long table ======================== *)
+\* rdms_to_df: one row per (RDM, pair), RDMs stacked; index descriptors renamed rdm_index / pattern_index_k
+DfExpect(i) == LET n == Len(i.order)  m == CLen(n) IN
+  [q \in 1..(i.nr * m) |->
+     LET r == (q - 1) \div m + 1  pq == PairAt(n, ((q - 1) % m) + 1) IN
+     [dis |-> Tok(r, i.order[pq[1]], i.order[pq[2]]), rdm |-> r - 1, p1 |-> pq[1] - 1, p2 |-> pq[2] - 1,
+      c1 |-> i.order[pq[1]], c2 |-> i.order[pq[2]]]]
+
 (* ============================ state machine ============================== *)
 InitBids == /\ sec = "bids" /\ stage = "input" /\ inp \in Entities /\ out = <<>>
 \* the name grammar is varied in full with one small content, the contents in full with one name per
@@ -438,22 +544,38 @@ InitMeadows ==
                    parts |-> IF nm.shape = "mp1t" THEN <<2, 1>> ELSE <<>>,
                    layout |-> IF nm.shape = "1pmt" THEN <<0, 1, 1>> ELSE <<>>, pvar |-> 0,
                    uperm |-> IF nm.shape = "mp1t" THEN <<2, 1>> ELSE <<>>, weave |-> 0]
+\* all shapes with an anonymous epochs object, all file names with one small shape
 InitMne == /\ sec = "mne" /\ stage = "input" /\ out = <<>>
-           /\ \E ne \in 1..3, nc \in 1..3, nt \in 1..3, sf \in {20, 100}, first \in {0, 2} :
-                \E codes \in [1..ne -> {11, 12}] :
-                inp = [ne |-> ne, nc |-> nc, nt |-> nt, sfreq |-> sf, first |-> first, codes |-> codes]
+           /\ \/ \E ne \in 1..3, nc \in 1..3, nt \in 1..3, sf \in {20, 100}, first \in {0, 2} :
+                   \E codes \in [1..ne -> MneCodes] :
+                   inp = [ne |-> ne, nc |-> nc, nt |-> nt, sfreq |-> sf, first |-> first, codes |-> codes,
+                          name |-> NoEnt]
+              \/ \E nm \in MneNames :
+                   inp = [ne |-> 2, nc |-> 2, nt |-> 3, sfreq |-> 20, first |-> 2,
+                          codes |-> <<LastOf(MneCodes), FirstOf(MneCodes)>>, name |-> nm]
 InitDm == /\ sec = "dm" /\ stage = "input" /\ out = <<>>
-          /\ \E nc \in 1..3, tr \in 1..3, nv \in VolSet, nconf \in 0..3 : \E ev \in SurjSeqs(nc) :
+          /\ \E nc \in 1..MaxCond, tr \in 1..3, nv \in VolSet, nconf \in 0..3 : \E ev \in SurjSeqs(nc) :
                \E nan \in NanSets(nconf) :
                inp = [ev |-> ev, tr |-> tr, nvols |-> nv, nconf |-> nconf, nan |-> nan]
 InitSpm == /\ sec = "spm" /\ stage = "input" /\ out = <<>>
            /\ \E k \in 1..SpmMaxRuns, P \in 1..2, pat \in SpmPats : \E runs \in [1..k -> SpmRuns] :
                 inp = [runs |-> runs, Y |-> SpmY(SumN(runs), P, pat)]
+InitHrf == /\ sec = "hrf" /\ stage = "input" /\ out = <<>>
+           /\ \E nc \in 1..MaxCond, s \in {10, 20, 25}, B \in {5, 10, 20}, nv \in VolSet, p \in 1..4 :
+                \E cs \in SurjSeqs(nc) :
+                inp = [s |-> s, B |-> B, nvols |-> nv, pat |-> p, ev |-> HrfEvents(cs, p, nv)]
+InitDataset == /\ sec = "dataset" /\ stage = "input" /\ out = <<>>
+               /\ \E subs \in {<<Ds.sub1>>, <<Ds.sub2, Ds.sub1>>}, sess \in {<<0>>, <<Ds.ses1, Ds.ses2>>},
+                     tasks \in {<<Ds.t1>>, <<Ds.t1, Ds.t2>>}, runs \in {<<0>>, <<Ds.r1, Ds.r2>>}, q \in DsQueries :
+                    inp = [subs |-> subs, sess |-> sess, tasks |-> tasks, runs |-> runs, q |-> q]
+InitDf == /\ sec = "df" /\ stage = "input" /\ out = <<>>
+          /\ \E nr \in 1..MaxRdm, n \in StimSizes : \E order \in Perms(n) : inp = [nr |-> nr, order |-> order]
 InitLayout == /\ sec = "layout" /\ stage = "open" /\ inp = Family /\ out = <<>>
 Init == \/ ("bids" \in Sections /\ InitBids) \/ ("meadows" \in Sections /\ InitMeadows)
         \/ ("layout" \in Sections /\ InitLayout)
         \/ ("mne" \in Sections /\ InitMne) \/ ("dm" \in Sections /\ InitDm)
-        \/ ("spm" \in Sections /\ InitSpm)
+        \/ ("spm" \in Sections /\ InitSpm) \/ ("hrf" \in Sections /\ InitHrf)
+        \/ ("dataset" \in Sections /\ InitDataset) \/ ("df" \in Sections /\ InitDf)
 
 BidsFormat == /\ sec = "bids" /\ stage = "input" /\ stage' = "formatted"
               /\ out' = [path |-> Format(inp)] /\ UNCHANGED <<sec, inp>>
@@ -474,13 +596,17 @@ MneMap == /\ sec = "mne" /\ stage = "input" /\ stage' = "done" /\ out' = MneExpe
 DmBuild == /\ sec = "dm" /\ stage = "input" /\ stage' = "done" /\ out' = DmExpect(inp) /\ UNCHANGED <<sec, inp>>
 SpmFilter == /\ sec = "spm" /\ stage = "input" /\ stage' = "done"
              /\ out' = Filter(inp.Y, inp.runs) /\ UNCHANGED <<sec, inp>>
+HrfBuild == /\ sec = "hrf" /\ stage = "input" /\ stage' = "done" /\ out' = HrfExpect(inp) /\ UNCHANGED <<sec, inp>>
+DatasetFind == /\ sec = "dataset" /\ stage = "input" /\ stage' = "done" /\ out' = DsExpect(inp)
+               /\ UNCHANGED <<sec, inp>>
+DfRows == /\ sec = "df" /\ stage = "input" /\ stage' = "done" /\ out' = DfExpect(inp) /\ UNCHANGED <<sec, inp>>
 LayoutLookup == /\ sec = "layout" /\ Len(out) < LayoutDepth
                 /\ \E f \in 1..Len(inp), kind \in LookKinds :
                      /\ LookEnabled(kind, inp[f])
                      /\ out' = Append(out, LayoutStepRec(inp, f, kind))
                 /\ UNCHANGED <<sec, stage, inp>>
 Next == LayoutLookup \/ BidsFormat \/ BidsParse \/ BidsLookup \/ BidsReject \/ MeadowsName \/ MeadowsLoad
-        \/ MneMap \/ DmBuild \/ SpmFilter
+        \/ MneMap \/ DmBuild \/ SpmFilter \/ HrfBuild \/ DatasetFind \/ DfRows
 Spec == Init /\ [][Next]_vars
 
 (* ======================= laws checked on the model ======================= *)
@@ -534,6 +660,33 @@ DmShape == (sec = "dm" /\ stage = "done") =>
    /\ \A k \in 1..out.ncols : out.mask[k] = 1 <=> k <= Len(out.colcond)
    /\ out.ncols = Len(out.colcond) + Len(out.confkept)
    /\ Range(out.confkept) = (1..inp.nconf) \ inp.nan
+\* e': exact design matrix: nothing before a condition's first onset; the events superpose; an event's column
+\* is the kernel shifted to its onset; columns are centred and range-normalised; kernel starts at 0
+HrfLaws == (sec = "hrf" /\ stage = "done") =>
+   LET K == Kernel(inp.s, inp.B)  n == inp.nvols IN
+   /\ K[1] = 0 /\ Len(K) = KernelLen(inp.s, inp.B) /\ MaxOf(K) > 0
+   /\ Len(out.raw) = Len(out.colcond) /\ Range(out.colcond) = {inp.ev[k][1] : k \in 1..Len(inp.ev)}
+   /\ \A c \in 1..Len(out.raw) :
+        LET mine == SelectSeq(inp.ev, LAMBDA e : e[1] = out.colcond[c])
+            first == MinOfSeq([k \in 1..Len(mine) |-> mine[k][2]]) IN
+        /\ \A j \in 1..n : (j - 1 <= first) => out.raw[c][j] = 0
+        /\ \A j \in 1..n : out.raw[c][j] = SumTo([k \in 1..Len(mine) |-> Single(K, n, mine[k][2])[j]], Len(mine))
+        /\ SumTo(out.num[c], n) = 0
+        /\ (out.den[c] # 0 => MaxOf(out.num[c]) - MinOfSeq(out.num[c]) = out.den[c])
+   /\ out.dof + Len(out.raw) = n
+\* b'': what is found is exactly what was asked for, and every run's companions are files of the data set
+DatasetLaws == (sec = "dataset" /\ stage = "done") =>
+   /\ \A r \in out.found : /\ r.path \in out.files /\ r.ent.derivative = inp.q.der /\ r.ent.desc = inp.q.desc
+                            /\ Parse(r.path) = r.ent
+                            /\ (r.ent.derivative = Ds.p1 /\ r.ent.suffix = Ds.bold =>
+                                  {r.events, r.meta, r.confounds, r.mask, r.parc} \subseteq out.files)
+   /\ \A e \in DsFiles(inp) : (Format(e) \in {r.path : r \in out.found}) <=> DsMatch(e, inp.q)
+   /\ Cardinality(out.files) = Cardinality(DsFiles(inp))                  \* paths are distinct
+\* g: every (RDM, pair) is one row; the row's value is the dissimilarity of the two conditions it names
+DfLaws == (sec = "df" /\ stage = "done") =>
+   /\ Len(out) = inp.nr * CLen(Len(inp.order))
+   /\ \A q \in 1..Len(out) : out[q].dis = Tok(out[q].rdm + 1, out[q].c1, out[q].c2) /\ out[q].p1 < out[q].p2
+   /\ Cardinality({<<out[q].rdm, out[q].p1, out[q].p2>> : q \in 1..Len(out)}) = Len(out)
 \* f: the bases are orthonormal; the result has no component left in its run's regressors; filtering
 \*    again changes nothing; a run's result depends on that run's rows and basis only
 SpmLaws == (sec = "spm" /\ stage = "done") =>
@@ -564,6 +717,11 @@ EmitDone ==
                            expect |-> out.expect])))
       [] sec = "mne" -> PrintT(ToJson([sec |-> "mne", i |-> inp, expect |-> out]))
       [] sec = "dm" -> PrintT(ToJson([sec |-> "dm", i |-> inp, expect |-> out]))
+      [] sec = "hrf" -> PrintT(ToJson([sec |-> "hrf", i |-> inp,
+                                       expect |-> [colcond |-> out.colcond, num |-> out.num, den |-> out.den,
+                                                   dof |-> out.dof]]))
+      [] sec = "dataset" -> PrintT(ToJson([sec |-> "dataset", i |-> inp, expect |-> out]))
+      [] sec = "df" -> PrintT(ToJson([sec |-> "df", i |-> inp, expect |-> out]))
       [] sec = "spm" -> ((SpmEmitMod = 1 \/ RandomElement(1..SpmEmitMod) = 1) => PrintT(ToJson([sec |-> "spm", i |-> inp, expect |-> out])))
       [] OTHER -> TRUE
 =============================================================================
